@@ -2,6 +2,7 @@
 package c11
 
 import (
+	"fmt"
 	"sort"
 	"strings"
 	"testing"
@@ -99,7 +100,7 @@ func check(c Case) error {
 				return vk.Errf("AllVariantsIUPAC(\"\") = %q", vs)
 			}
 		} else if !multisetEqual(vs, exp) {
-			return vk.Errf("AllVariantsIUPAC(%q) = %q, Cartesian product of the base sets is %q", s, strings.Join(vs, ","), strings.Join(exp, ","))
+			return vk.Errf("AllVariantsIUPAC(%q) = %s, Cartesian product of the base sets is %s", s, clipList(vs), clipList(exp))
 		}
 		if len(s) > 0 {
 			// expansion commutes with reverse complement
@@ -112,11 +113,19 @@ func check(c Case) error {
 				return vk.Errf("AllVariantsIUPAC(rc %q = %q) returned error %v", s, got, err)
 			}
 			if !multisetEqual(rcVariants, vrc) {
-				return vk.Errf("variants(rc(%q)) = %q but rc of variants(%q) = %q", s, strings.Join(vrc, ","), s, strings.Join(rcVariants, ","))
+				return vk.Errf("variants(rc(%q)) = %s but rc of variants(%q) = %s", s, clipList(vrc), s, clipList(rcVariants))
 			}
 		}
 	}
 	return nil
+}
+
+// clipList shows a list of variants: all of a short one, the size, the first and the last few of a long one.
+func clipList(l []string) string {
+	if len(l) <= 40 {
+		return fmt.Sprintf("%q", strings.Join(l, ","))
+	}
+	return fmt.Sprintf("[%d strings: %s, ... , %s]", len(l), strings.Join(l[:8], ","), strings.Join(l[len(l)-4:], ","))
 }
 
 func nonTrivial(c Case) bool {
@@ -221,6 +230,19 @@ func gen(t *rapid.T) Case {
 			c.S, c.Expand = string(b), true
 			return c
 		}
+	}
+	if rapid.IntRange(0, 199).Draw(t, "many_codes") == 0 {
+		// many ambiguity codes at once: 12..18 two-fold codes among a few concrete letters (4096 .. 262144 variants)
+		n := rapid.SampledFrom([]int{12, 14, 16, 17, 17, 18}).Draw(t, "n_twofold")
+		var b []byte
+		for i := 0; i < n; i++ {
+			b = append(b, "RYKMSWrykmsw"[rapid.IntRange(0, 11).Draw(t, "twofold")])
+			if rapid.IntRange(0, 2).Draw(t, "spacer") == 0 {
+				b = append(b, "ACGTacgt"[rapid.IntRange(0, 7).Draw(t, "spacer_letter")])
+			}
+		}
+		c.S, c.Expand = string(b), true
+		return c
 	}
 	// expansion only when the product has at most 4^8 members
 	prod := 1
